@@ -159,8 +159,26 @@ pub fn run(r: &Ref, proc_id: u64, threads: usize, iters: usize, seed: u64) -> Ve
                             made = Some(json!({"op": "Made", "kind": "key", "id": id, "blind": [], "pts": pts, "secrets": secrets, "minbits": mb, "zero": false}));
                         }
                     }
-                    for d in verif_hooks::take_draws() {
-                        evs.push(json!({"op": "Draw", "proc": proc_id, "thr": thr, "seq": d.seq, "site": d.site, "dig": dig(&[&proc_id.to_be_bytes()[..0], &d.value[..]].concat())}));
+                    let drawn = verif_hooks::take_draws();
+                    // (drift) the consumption map of Rng.tla: which draw feeds which blinding slot
+                    if let Some(m) = &made {
+                        let kind = m["kind"].as_str().unwrap_or("");
+                        let bl: Vec<String> = m["blind"].as_array().unwrap().iter().map(|x| x.as_str().unwrap().to_string()).collect();
+                        let dd: Vec<String> = drawn.iter().filter(|d| d.site == "get_random").map(|d| dig(&d.value)).collect();
+                        let expect: Option<Vec<String>> = match kind {
+                            // draws: r1, r2, e~, r1~, r3~, m~_1.. ; recomputed: e~, m~_1..
+                            "proof" | "blindproof" if dd.len() == 4 + bl.len() => Some(std::iter::once(dd[2].clone()).chain(dd[5..].iter().cloned()).collect()),
+                            // draws: secret_prover_blind, s~, m~_1.. ; recomputed: the same
+                            "commit" if dd.len() == bl.len() => Some(dd.clone()),
+                            "key" => None,
+                            _ => Some(vec![]),
+                        };
+                        if let Some(e) = expect {
+                            evs.push(json!({"op": "Slots", "id": m["id"], "kind": kind, "draws": dd.len(), "match": e == bl}));
+                        }
+                    }
+                    for d in drawn {
+                        evs.push(json!({"op": "Draw", "proc": proc_id, "thr": thr, "seq": d.seq, "site": d.site, "dig": dig(&d.value)}));
                     }
                     if let Some(m) = made {
                         evs.push(m);
